@@ -397,6 +397,10 @@ def _neighbours(q, ans, rng):
             if n < 30:
                 out.append(f"{op} {sv} {n + 1} {o}")
             out.append(f"{op} {sv} {n} {(o + rng.randrange(1, 6)) % 6}")
+            if n >= 1:
+                # two components at once: the leading digit and the orientation (a packed key in which two fields overlap)
+                for k in (1, 2, 3):
+                    out.append(f"{op} {(sv + k * 4 ** (n - 1)) % (4 ** n)} {n} {(o + rng.randrange(1, 6)) % 6}")
         elif op == "ij_to_s" and len(t) == 5:
             out = [f"{op} {t[2]} {t[1]} {t[3]} {t[4]}", f"{op} {t[1]} {t[2]} {t[3]} {(int(t[4]) + rng.randrange(1, 6)) % 6}"]
     except (ValueError, IndexError, OverflowError):
@@ -712,6 +716,20 @@ class Run:
                     self.tie_breaks.append(("runtime-constants", "tools/gen_runtime.py (model vs library start-up constants)", rout[-1500:]))
             except Abort:
                 pass
+        # the state inventory of the source (statics, thread-locals, struct fields) must be the one the model was written against
+        self.inventory_ok, inv_out = lake_build(["A5.Props.StateInventory"])
+        if not self.inventory_ok:
+            def entries(path):
+                try:
+                    return [l[5:].rstrip("\n") for l in open(path) if l.startswith("--   ")]
+                except OSError:
+                    return []
+            g, r = entries(os.path.join(LEAN, "A5", "Gen", "Tables.lean")), entries(os.path.join(LEAN, "A5", "Ref", "Tables.lean"))
+            added = [e for e in g if e not in r]
+            removed = [e for e in r if e not in g]
+            msg = "state the model does not have: " + ("; ".join(["+ " + e for e in added] + ["- " + e for e in removed]) or inv_out[-600:])
+            self.tie_breaks.append(("state-inventory", "A5.STATE_INVENTORY_unchanged (A5/Props/StateInventory.lean)", msg[:3000]))
+            self.note("state inventory differs: " + msg[:300])
         ok, out = lake_build([f"A5.Props.{self.id}", "a5driver"])
         if not ok:
             # find which declaration failed
@@ -726,14 +744,14 @@ class Run:
             self.discharged = 0
             return False
         ok, names, detail = axiom_audit(self.id)
-        self.theorems = names
-        self.obligations = len(names) + 1
+        self.theorems = names + ["A5.STATE_INVENTORY_unchanged"]
+        self.obligations = len(names) + 2
         self.note("audit: " + detail.split("\n")[0])
         if not ok:
             self.tie_breaks.append(("audit", f"A5.Props.{self.id}", detail))
             self.discharged = 0
             return False
-        self.discharged = self.obligations
+        self.discharged = self.obligations - (0 if self.inventory_ok else 1)
         self.partial = [n for n in names if n.endswith("_partial")]
         if self.tier == "thorough":
             ok, out = leanchecker(self.id)
